@@ -254,7 +254,7 @@ class CircuitTemplate(AbstractBaseTemplate):
         else:
             # the new instance gets its own edge attribute dictionaries, such that later updates of its edge variables
             # do not alter the edges of this template
-            edges = [(source, target, template, dict(attr) if attr else attr)
+            edges = [(source, target, template, dict(attr) if attr is not None else attr)
                      for source, target, template, attr in self.edges]
 
         # either create new instance with updates or store updates on current template instance
